@@ -11,8 +11,11 @@ if '--tier' in args:
     i = args.index('--tier'); tier = args[i + 1]; del args[i:i + 2]
 if '--needs' in args:
     i = args.index('--needs'); needs = args[i + 1]; del args[i:i + 2]
+sub = ''
+if '--sub' in args:
+    i = args.index('--sub'); sub = args[i + 1]; del args[i:i + 2]
 wt, name, props = args[0], args[1], args[2:]
-src = os.path.join(wt, 'seed')
+src = os.path.join(wt, 'seed', sub) if sub else os.path.join(wt, 'seed')
 dst = os.path.join(HERE, 'seeded', name)
 os.makedirs(dst, exist_ok=True)
 for f in ('patch.diff', 'demo.py', 'notes.md'):
